@@ -34,11 +34,17 @@ ActsTyped == {a \in Only({"insertd", "deleted", "selectd", "select", "update", "
              \cup {a \in Only({"select", "selectd"}) : a.t = "f2"}
              \cup {a \in Only({"updatejoin", "insertsel"}) : a.t \in {"f1", TempT} /\ a.u \in {"f1", TempT}}
              \cup Only({"commit", "rollback"})
+\* one name, two directories: the repository is changed between statements on f1
+ActsDirs == Only({"chdir", "commit", "rollback"})
+            \cup {a \in Only({"select", "insert1", "update", "delete", "selectagg", "disk", "replace", "insertsel", "callins"}) : a.t \in {"f1", "g1"} /\ a.k \in {0, 1} /\ a.u \in {"", "f1", "g1"}}
 \* reads of every form around commits of another process
 ActsReads == Only({"select", "selectsub", "selectfn", "selectinline", "selectagg", "selectpath", "insertpath", "env", "update", "insertsel", "updatejoin", "commit", "rollback"})
 \* a procedure that reads, executes nested statements and reads again while another process commits in between
 ActsNested == Only({"select", "selectsub", "selectagg", "selectfn", "selectinline", "env", "nestexec", "nestsource", "nestprep", "callnoop"})
               \cup {a \in Only({"insert1", "update"}) : a.t \in {"f1", TempT} /\ a.k = 1}
+\* the quick model-checking configurations leave out the statements that name the sub-directory's file from the top
+\* directory (`sub/f1.csv`): the file is reached through the name f1 after a change of the repository
+NextQ == \E a \in {b \in Actions : b.t # SubFile /\ b.u # SubFile} : Do(a)
 Depth6 == TLCGet("level") <= 6
 Depth5 == TLCGet("level") <= 5
 =============================================================================
